@@ -12,7 +12,9 @@
 //	R c k i1,i2    callback c registered on meter k for observable instruments i1,i2 (observes c+1, attribute cb=c)
 //	U c            registration c . Unregister()
 //	T t            tracer handle t := otel.Tracer("t<t>")
-//	S t id         span "s<id>" started and ended on tracer t
+//	S t id [^j]    span "s<id>" started (and ended) on tracer t — from a fresh context, or under the context that
+//	               the Start of span j returned (a pre-install placeholder span or a real SDK span, any tracer)
+//	TS t j         tracer handle t := (span j).TracerProvider().Tracer("t<t>")
 //	P id           Inject through the TextMapPropagator obtained before anything was installed
 //	IM IT IP       otel.SetMeterProvider(sdk) / SetTracerProvider(sdk) / SetTextMapPropagator(TraceContext)
 //	XM XT XP       self-set (save/restore helper): otel.SetMeterProvider(otel.GetMeterProvider()) / …TracerProvider… /
@@ -76,6 +78,8 @@ type world struct {
 	insts   map[int]*instH
 	cbs     map[int]*cbH
 	tracers map[int]trace.Tracer
+	spanCtx map[int]context.Context // context returned by the Start of span id
+	spanObj map[int]trace.Span
 	props   map[int]int
 	prop0   propagation.TextMapPropagator
 
@@ -109,6 +113,7 @@ func newWorld() *world {
 	w := &world{
 		meters: map[int]metric.Meter{}, insts: map[int]*instH{}, cbs: map[int]*cbH{},
 		tracers: map[int]trace.Tracer{}, props: map[int]int{},
+		spanCtx: map[int]context.Context{}, spanObj: map[int]trace.Span{},
 		gateCh: make(chan string), relCh: make(chan struct{}), curMeter: -1,
 	}
 	w.prop0 = otel.GetTextMapPropagator()
@@ -420,8 +425,38 @@ func (w *world) exec(op []string) {
 			w.fail("S:no-tracer-%s", op[1])
 			return
 		}
-		_, sp := tr.Start(context.Background(), "s"+op[2])
+		ctx := context.Background()
+		if len(op) > 3 {
+			w.mu.Lock()
+			pctx := w.spanCtx[atoi(strings.TrimPrefix(op[3], "^"))]
+			w.mu.Unlock()
+			if pctx == nil {
+				w.fail("S:no-parent-%s", op[3])
+				return
+			}
+			ctx = pctx
+		}
+		ctx2, sp := tr.Start(ctx, "s"+op[2])
 		sp.End()
+		w.mu.Lock()
+		w.spanCtx[atoi(op[2])] = ctx2
+		w.spanObj[atoi(op[2])] = sp
+		w.mu.Unlock()
+	case "TS":
+		t := atoi(op[1])
+		w.mu.Lock()
+		sp := w.spanObj[atoi(op[2])]
+		w.mu.Unlock()
+		if sp == nil {
+			w.fail("TS:no-span-%s", op[2])
+			return
+		}
+		tr := sp.TracerProvider().Tracer("t" + op[1])
+		w.mu.Lock()
+		if w.tracers[t] == nil {
+			w.tracers[t] = tr
+		}
+		w.mu.Unlock()
 	case "P":
 		sc := trace.NewSpanContext(trace.SpanContextConfig{
 			TraceID: trace.TraceID{1}, SpanID: trace.SpanID{2}, TraceFlags: trace.FlagsSampled, Remote: true})
@@ -462,7 +497,7 @@ func (w *world) exec(op []string) {
 // harness waits before it declares the operation pending; a wrong guess costs time, never correctness.
 func (w *world) predictBlock(op []string) bool {
 	if w.gatedKind == "T" {
-		return op[0] == "T" || op[0] == "IT"
+		return op[0] == "T" || op[0] == "TS" || op[0] == "IT"
 	}
 	switch op[0] {
 	case "M", "IM":
@@ -745,14 +780,32 @@ func (w *world) observe() string {
 	for _, c := range ids {
 		cbs = append(cbs, fmt.Sprintf("c%d=%d", c, w.cbs[c].count.Load()))
 	}
-	var spans []int
-	for _, s := range w.exp.GetSpans() {
-		spans = append(spans, atoi(strings.TrimPrefix(s.Name, "s")))
+	// exported spans with the parent the SDK recorded (parent's span context if valid, mapped back to our ids)
+	exported := w.exp.GetSpans()
+	idOf := map[trace.SpanID]int{}
+	for _, s := range exported {
+		idOf[s.SpanContext.SpanID()] = atoi(strings.TrimPrefix(s.Name, "s"))
 	}
-	sort.Ints(spans)
+	type sp struct {
+		id  int
+		par string
+	}
+	var spans []sp
+	for _, s := range exported {
+		e := sp{id: atoi(strings.TrimPrefix(s.Name, "s"))}
+		if s.Parent.IsValid() {
+			if p, ok := idOf[s.Parent.SpanID()]; ok {
+				e.par = "^" + strconv.Itoa(p)
+			} else {
+				e.par = "^?"
+			}
+		}
+		spans = append(spans, e)
+	}
+	sort.Slice(spans, func(a, b int) bool { return spans[a].id < spans[b].id })
 	var sps []string
 	for _, s := range spans {
-		sps = append(sps, strconv.Itoa(s))
+		sps = append(sps, strconv.Itoa(s.id)+s.par)
 	}
 	ids = ids[:0]
 	for p := range w.props {
